@@ -4,5 +4,6 @@ set -e
 n=$1
 d=/tmp/wt-$n
 git -C /repo worktree add -q --detach $d HEAD
-if [ -d /repo/target ]; then cp -al /repo/target $d/target 2>/dev/null || true; fi
+# debug-free prebuilt dependencies (built once in /tmp/wt-base with CARGO_PROFILE_DEV_DEBUG=0)
+if [ -d /tmp/wt-base/target ]; then cp -al /tmp/wt-base/target $d/target 2>/dev/null || true; fi
 echo $d
